@@ -120,8 +120,7 @@ func (a *Act) intrinsic(name string, fv FuncV, args []Value) (Value, bool) {
 		tab := args[1].(PtrV)
 		poly := navigate(a.st.heap[tab.alts[0].obj].v, tab.alts[0].path).(ArrayV).e[0].(*Term)
 		in.events = append(in.events, fmt.Sprintf("crc32.Checksum(poly=%#x, data=obj%d off=%d)", poly.val, data.arr.alts[0].obj, data.off))
-		in.crcData, in.crcPoly = data, poly
-		return in.named("crc", BVS(32)), true
+		return in.crcRecord(data, poly), true
 	case "log.Printf", "log.Println", "log.Fatalf":
 		return nil, true
 	case "google.golang.org/protobuf/proto.Clone":
@@ -775,16 +774,18 @@ func (a *Act) intrinsic(name string, fv FuncV, args []Value) (Value, bool) {
 	case "verifSegmentsOK":
 		return True, true
 	case "verifCrcOf":
+		if c := in.crcLookup(args[0].(SliceV)); c != nil {
+			return c.val, true
+		}
 		return in.named("crc", BVS(32)), true
 	case "verifCrcArgsOK":
 		// checksum was computed over exactly this slice with the Castagnoli polynomial
 		want := args[0].(SliceV)
-		ok := in.crcPoly != nil && in.crcPoly.IsConst() && in.crcPoly.val == 0x82f63b78 &&
-			len(in.crcData.arr.alts) == 1 && len(want.arr.alts) == 1 && in.crcData.arr.alts[0].obj == want.arr.alts[0].obj && in.crcData.off == want.off
-		if !ok {
+		c := in.crcLookup(want)
+		if c == nil || !c.poly.IsConst() || c.poly.val != 0x82f63b78 {
 			return False, true
 		}
-		return Eq(in.crcData.len, want.len), true
+		return Eq(c.data.len, want.len), true
 	case "verifReach":
 		if in.sat(a.g) {
 			in.reach[argStr(args[0])] = "reachable"
